@@ -126,7 +126,10 @@ pub fn oracle(c: &TagCase, obs: &mut Obs, counted: bool) -> Verdict {
             if name != c.name {
                 vfail!("name is {:?}, expected {:?} for {:?}", name, c.name, src);
             }
-            if attrs != exp_attrs {
+            // a `*` that is part of a comment-continuation separator (" \n * ") is not asserted either way
+            let star = |v: &Vec<(String, Option<String>)>| -> Vec<(String, Option<String>)> { v.iter().filter(|(k, val)| !(k == "*" && val.is_none())).cloned().collect() };
+            let (attrs_cmp, exp_cmp) = if c.attrs.iter().any(|(s, _)| s.contains('*')) || c.tail.contains('*') { (star(&attrs), star(&exp_attrs)) } else { (attrs.clone(), exp_attrs.clone()) };
+            if attrs_cmp != exp_cmp {
                 vfail!("attributes are {:?}, expected {:?} for {:?}", attrs, exp_attrs, src);
             }
         }
